@@ -83,8 +83,8 @@ pub fn file_spec(dir: &Path, sp: &SpecP) -> FileSpec {
         .suppress_timestamp()
 }
 
-pub fn builder(dir: &Path, sp: &SpecP, cfg: &CfgP, bg_cleanup: bool, mode: Option<WriteMode>) -> FileLogWriterBuilder {
-    let mut b = FileLogWriter::builder(file_spec(dir, sp)).format(raw_format).cleanup_in_background_thread(bg_cleanup);
+pub fn rotation(sp: &SpecP, cfg: &CfgP) -> Option<(Criterion, Naming, Cleanup)> {
+    let mut out = None;
     if let Some(r) = &cfg.rot {
         let age = |c: char| match c { 'd' => Age::Day, 'h' => Age::Hour, 'm' => Age::Minute, _ => Age::Second };
         let crit = match (r.max_size, r.age) {
@@ -106,6 +106,14 @@ pub fn builder(dir: &Path, sp: &SpecP, cfg: &CfgP, bg_cleanup: bool, mode: Optio
             Some((0, m)) => Cleanup::KeepCompressedFiles(m),
             Some((k, m)) => Cleanup::KeepLogAndCompressedFiles(k, m),
         };
+        out = Some((crit, naming, cleanup));
+    }
+    out
+}
+
+pub fn builder(dir: &Path, sp: &SpecP, cfg: &CfgP, bg_cleanup: bool, mode: Option<WriteMode>) -> FileLogWriterBuilder {
+    let mut b = FileLogWriter::builder(file_spec(dir, sp)).format(raw_format).cleanup_in_background_thread(bg_cleanup);
+    if let Some((crit, naming, cleanup)) = rotation(sp, cfg) {
         b = b.rotate(crit, naming, cleanup);
     }
     if cfg.append {
@@ -116,6 +124,27 @@ pub fn builder(dir: &Path, sp: &SpecP, cfg: &CfgP, bg_cleanup: bool, mode: Optio
         b = b.create_symlink(dir.join("current.link"));
     }
     b
+}
+
+/// the same configuration through `Logger` (C04: flush/shutdown/drop of the LoggerHandle)
+pub fn logger(dir: &Path, sp: &SpecP, cfg: &CfgP, mode: Option<WriteMode>, errchan: &Path) -> (Box<dyn log::Log>, flexi_logger::LoggerHandle) {
+    let mut l = flexi_logger::Logger::with(flexi_logger::LogSpecification::trace())
+        .log_to_file(file_spec(dir, sp))
+        .format(raw_format)
+        .cleanup_in_background_thread(false)
+        .error_channel(flexi_logger::ErrorChannel::File(errchan.to_path_buf()))
+        .panic_if_error_channel_is_broken(false);
+    if let Some((crit, naming, cleanup)) = rotation(sp, cfg) {
+        l = l.rotate(crit, naming, cleanup);
+    }
+    if cfg.append {
+        l = l.append();
+    }
+    l = l.write_mode(mode.unwrap_or(match cfg.cap { None => WriteMode::Direct, Some(c) => WriteMode::BufferDontFlushWith(c) }));
+    if cfg.symlink {
+        l = l.create_symlink(dir.join("current.link"));
+    }
+    l.build().expect("Logger::build")
 }
 
 #[derive(Default)]
@@ -193,13 +222,13 @@ impl ErrChan {
         let kinds = self.all();
         let new: Vec<String> = kinds[self.seen.min(kinds.len())..].to_vec();
         self.seen = kinds.len();
-        new.into_iter().filter(|k| k != "symlink").collect()
+        new.into_iter().filter(|k| k != "symlink" && k != "palette").collect()
     }
     pub fn new_for_errs(&mut self) -> Vec<String> {
         let kinds = self.all();
         let new: Vec<String> = kinds[self.seen_errs.min(kinds.len())..].to_vec();
         self.seen_errs = kinds.len();
-        new.into_iter().filter(|k| k != "symlink").collect()
+        new.into_iter().filter(|k| k != "symlink" && k != "palette").collect()
     }
     pub fn reset(&mut self) {
         let n = self.all().len();
@@ -273,6 +302,9 @@ pub struct Flw {
     pub old_current_tokens: Vec<String>,
     pub moved_names: Vec<String>,
     pub foreign_content: std::collections::HashMap<String, Vec<u8>>,
+    pub via_logger: bool,
+    pub lg: Option<(Box<dyn log::Log>, Vec<flexi_logger::LoggerHandle>)>,
+    pub errchan: PathBuf,
 }
 impl Flw {
     pub fn ensure(&mut self) -> &ArcFileLogWriter {
@@ -528,6 +560,9 @@ pub fn execute(ctx: &mut Ctx, lines: &[String]) -> Vec<String> {
         old_current_tokens: vec![],
         moved_names: vec![],
         foreign_content: Default::default(),
+        via_logger: false,
+        lg: None,
+        errchan: ech.path.clone(),
     };
     let mut h = Hist::default();
     let mut out = Vec::with_capacity(lines.len());
@@ -558,6 +593,59 @@ pub fn execute(ctx: &mut Ctx, lines: &[String]) -> Vec<String> {
                     _ => panic!("mode"),
                 });
                 f.w = None;
+                "ok".into()
+            }
+            ["VIA", v] => {
+                f.via_logger = *v == "logger";
+                "ok".into()
+            }
+            ["LW", b, now] => {
+                // a record through the log facade's Log::log of a real Logger
+                let bytes = unhex(b).unwrap();
+                let now: u64 = now.parse().unwrap();
+                ctx.report.count("op.LW");
+                if f.lg.is_none() {
+                    let (b, h) = logger(&dir, &f.spec, &f.cfg, f.mode, &f.errchan);
+                    f.lg = Some((b, vec![h]));
+                }
+                let payload = String::from_utf8(bytes[..bytes.len() - 1].to_vec()).unwrap();
+                with_clock(now, || f.lg.as_ref().unwrap().0.log(&Record::builder().level(log::Level::Info).target("t").args(format_args!("{}", payload)).build()));
+                let ev = ech.new_events();
+                // no fault is injected in these histories: every record whose log call returned counts
+                h.recs.push((bytes.clone(), now));
+                if buffered { h.unflushed = true; }
+                if ev.is_empty() || is_async { "ok".into() } else { "err".into() }
+            }
+            ["LFLUSH"] => {
+                ctx.report.count("op.LFLUSH");
+                if let Some((_, hs)) = &f.lg { hs[0].flush(); }
+                if !is_async { h.unflushed = false; }
+                "ok".into()
+            }
+            ["LSHUT"] => {
+                ctx.report.count("op.LSHUT");
+                if let Some((_, hs)) = &f.lg { hs[0].shutdown(); }
+                h.unflushed = false;
+                "ok".into()
+            }
+            ["LCLONE"] => {
+                ctx.report.count("op.LCLONE");
+                if f.lg.is_none() {
+                    let (b, hd) = logger(&dir, &f.spec, &f.cfg, f.mode, &f.errchan);
+                    f.lg = Some((b, vec![hd]));
+                }
+                if let Some((_, hs)) = f.lg.as_mut() { let c = hs[0].clone(); hs.push(c); }
+                "ok".into()
+            }
+            ["LDROPCLONE"] => {
+                ctx.report.count("op.LDROPCLONE");
+                if let Some((_, hs)) = f.lg.as_mut() { if hs.len() > 1 { drop(hs.pop()); if !is_async { h.unflushed = false; } } }
+                "ok".into()
+            }
+            ["LDROPALL"] => {
+                ctx.report.count("op.LDROPALL");
+                if let Some((b, hs)) = f.lg.take() { drop(hs); drop(b); }
+                h.unflushed = false;
                 "ok".into()
             }
             ["BGCLEAN", b] => {
@@ -761,11 +849,12 @@ pub fn execute(ctx: &mut Ctx, lines: &[String]) -> Vec<String> {
         };
         out.push(ans);
     }
+    let f_via_logger = f.via_logger;
     drop(f);
     flexi_logger::verif_hooks::set_virtual_now(None);
     flexi_logger::verif_hooks::set_fault_handler(None);
     let _ = std::fs::remove_dir_all(&dir);
-    if h.rotations > 0 || h.restarts > 0 {
+    if h.rotations > 0 || h.restarts > 0 || (f_via_logger && h.recs.len() > 1) {
         ctx.report.nontrivial_case(lines);
     }
     ctx.report.add("rotations", h.rotations);
